@@ -216,3 +216,16 @@ Theorem C05_timed_out_call_refunded_unless_an_older_call_blocks : forall s h s' 
   ~ In (c_nonce c) (cnonces (calls s')) /\ In (EvCallRefund (c_nonce c) (c_refund c) (c_tokens c) ByTimeout) evs.
 Proof. intros s h s' evs pre c post R; apply timed_out_call_refunded_unless_blocked, reachable_inv, R. Qed.
 Print Assumptions C05_timed_out_call_refunded_unless_an_older_call_blocks.
+
+(* the module migration run by the v8 upgrade is a lifecycle operation of the model ([Migrate], so every theorem above
+   covers histories containing it); it rewrites parameters and nothing else *)
+Theorem C05_migrate_preserves_ids_records_and_heights : forall s s' evs, accepted s Migrate s' evs ->
+  pool s' = pool s /\ batches s' = batches s /\ by_block s' = by_block s /\
+  next_tx s' = next_tx s /\ next_batch s' = next_batch s /\ next_call s' = next_call s /\
+  calls s' = calls s /\ by_sender s' = by_sender s /\ from_msg s' = from_msg s /\ pending s' = pending s /\
+  evn s' = evn s /\ obs_ext s' = obs_ext s /\ obs_fx s' = obs_fx s /\ fxh s' = fxh s /\
+  bal s' = bal s /\ toks s' = toks s /\ relation s' = relation s /\ evs = [] /\
+  p_batch_timeout (prm s') = p_batch_timeout (prm s) /\ p_avg_block (prm s') = p_avg_block (prm s) /\
+  p_avg_ext (prm s') = p_avg_ext (prm s) /\ p_max_elems (prm s') = p_max_elems (prm s) /\ p_call_timeout (prm s') = 604800000.
+Proof. exact migrate_preserves. Qed.
+Print Assumptions C05_migrate_preserves_ids_records_and_heights.
